@@ -24,6 +24,45 @@ fn u51_done_adds_nothing() {
     assert!(rec[0] == 0, "done() appended bytes to the digest input");
 }
 
+/// A recording digest with a 9-octet window (canon of 4 octets is at most 8) whose content is
+/// read back without allocation through `finalize_into_reset(out)`: out = [len, bytes...].
+#[derive(Clone)]
+struct Rec8 {
+    buf: [u8; 9],
+    len: usize,
+}
+impl DynDigest for Rec8 {
+    fn update(&mut self, data: &[u8]) {
+        let mut i = 0;
+        while i < data.len() {
+            // more than 9 octets would be a harness error: shows up as a failed bounds check
+            self.buf[self.len] = data[i];
+            self.len += 1;
+            i += 1;
+        }
+    }
+    fn finalize_into(self, _buf: &mut [u8]) -> Result<(), digest::InvalidBufferSize> {
+        Ok(())
+    }
+    fn finalize_into_reset(&mut self, out: &mut [u8]) -> Result<(), digest::InvalidBufferSize> {
+        out[0] = self.len as u8;
+        out[1..10].copy_from_slice(&self.buf);
+        Ok(())
+    }
+    fn reset(&mut self) {
+        self.len = 0;
+    }
+    fn output_size(&self) -> usize {
+        10
+    }
+    fn box_clone(&self) -> Box<dyn DynDigest> {
+        Box::new(self.clone())
+    }
+    fn finalize_reset(&mut self) -> Box<[u8]> {
+        Box::new([0u8; 0])
+    }
+}
+
 /// Canonical text form, written from RFC 9580 5.2.1.2 / 5.2.4 ("<CR><LF> line endings") as the
 /// property states it: every LF that is not preceded by CR becomes CR LF, every other octet
 /// (including a lone CR) is unchanged.  Returns (bytes, len); 4 input octets give at most 8.
@@ -54,11 +93,12 @@ fn k03_text<const N: usize>() {
 }
 fn k03_text_at<const N: usize>(k: usize) {
     let text: [u8; N] = kani::any();
-    let mut h = NormalizingHasher::new(Box::new(Rec::new()), true);
+    let mut h = NormalizingHasher::new(Box::new(Rec8 { buf: [0; 9], len: 0 }), true);
     h.hash_buf(&text[..k]);
     h.hash_buf(&text[k..]);
     let mut d = h.done();
-    let rec = d.finalize_reset(); // [len, bytes...]
+    let mut rec = [0u8; 10]; // [len, bytes...]
+    let _ = d.finalize_into_reset(&mut rec);
     let (want, wn) = k03_canon(&text);
     assert!(rec[0] as usize == wn, "number of octets hashed differs from canon(text)");
     let j: usize = kani::any();
@@ -85,11 +125,6 @@ fn k03_normalizing_hasher_text_len2() {
 #[kani::unwind(4)]
 fn k03_normalizing_hasher_text_len3() {
     k03_text::<3>();
-}
-#[kani::proof]
-#[kani::unwind(7)]
-fn k03_probe_4_2() {
-    k03_text_at::<4>(2);
 }
 #[kani::proof]
 #[kani::unwind(5)]
